@@ -14,6 +14,9 @@ def scenarios(tier, seed):
     for k in range(n):
         # step lengths other than SimulationState's default of 60 s: the configured value is what must reach the state
         out.append(gen_scenario.write(os.path.join(WORK, 'scen', f'c15_{seed}_{k}'), seed * 1009 + k, delta=[30, 90, 45, 75, 20, 120, 15, 50][k % 8]))
+    # a run that crosses UTC midnight a few steps in (pickups whose request departed the day before)
+    d = [60, 30, 90][seed % 3]
+    out.append(gen_scenario.write(os.path.join(WORK, 'scen', f'c15_{seed}_midnight'), seed * 1009 + 77, delta=d, start=86400 - 12 * d))
     return out
 
 def splits_of(rng, n):
